@@ -184,37 +184,6 @@ Definition on_update (t : table) (a : addr) (rty now : N) : table * list group :
       end
   end.
 
-(* ---- bidib_node_state_expire_responses (heartbeat thread) ----
-   for every node of the table: drop the entries at the head of the response queue that have reached
-   the expiry age, then retry the held queue if its oldest message fits the counter *)
-Fixpoint reap_q (q : list (N * N)) (used now : N) : list (N * N) * N :=
-  match q with
-  | [] => ([], used)
-  | (ty, created) :: rest =>
-      if expiry_secs <=? now - created then reap_q rest (used - resp_size ty) now else (q, used)
-  end.
-
-Definition reap (v : node) (now : N) : node :=
-  let '(q, u) := reap_q (n_resp v) (n_used v) now in with_flow v u q (n_held v).
-
-Definition head_fits (v : node) : bool :=
-  match n_held v with
-  | [] => false
-  | (ty, _) :: _ => n_used v + resp_size ty <=? response_limit
-  end.
-
-Fixpoint expire_loop (ks : list addr) (t : table) (now : N) (acc : list group) : table * list group :=
-  match ks with
-  | [] => (t, acc)
-  | a :: r =>
-      let v := reap (get t a) now in
-      let t1 := store t a v in
-      if head_fits v then let '(t2, o) := try_queued t1 a now in expire_loop r t2 now (acc ++ o)
-      else expire_loop r t1 now acc
-  end.
-
-Definition on_expire (t : table) (now : N) : table * list group := expire_loop (map fst t) t now [].
-
 (* ---- bidib_node_update_stall ---- *)
 Fixpoint release_waiters (ws : list addr) (t : table) (now : N) (acc : list group) : table * list group :=
   match ws with
@@ -280,8 +249,7 @@ Inductive fev :=
 | FFlush
 | FCap (c : N)
 | FSeqOn (b : bool)
-| FReset
-| FExpire.                            (* the heartbeat thread's periodic bidib_node_state_expire_responses *)
+| FReset.
 
 (* ghost output of a step at node-table level *)
 Inductive gout :=
@@ -304,7 +272,6 @@ Definition tab_step (t : table) (seqon : bool) (now : N) (e : fev)
   | FCap c => (t, seqon, now, [], [SetCap c])
   | FSeqOn b => (t, b, now, [], [])
   | FReset => ([], seqon, now, [], [])
-  | FExpire => let '(t1, gs) := on_expire t now in (t1, seqon, now, map GReleased gs, groups_ops gs)
   end.
 
 Definition flow_step (wn : flow * N) (e : fev) : (flow * N) * list (N * packet) :=
